@@ -510,3 +510,219 @@ class CWorldMonitor:
                 if t not in self.table and t in self.rpcs and self.rpcs[t].get("by_close"):
                     v.append(("C14", "stale-table-entry", f"stream {t} still in the client table after its close frame"))
         return v
+
+
+def md_join(a, b):
+    """metadata.Join on the canonical text form k=v1,v2;k2=v (sorted keys)."""
+    d = {}
+    for part in (a, b):
+        if part in ("-", "", None):
+            continue
+        for kv in part.split(";"):
+            k, _, vs = kv.partition("=")
+            d.setdefault(k, []).extend(vs.split(","))
+    if not d:
+        return "-"
+    return ";".join(f"{k}={','.join(d[k])}" for k in sorted(d))
+
+
+class W1Monitor:
+    """End-to-end properties in W1 (real client + real server, harness-owned FIFO carrier).
+    Endpoint-local checks are delegated to the S-world and C-world monitors."""
+
+    def __init__(self):
+        self.smon = SWorldMonitor()
+        self.cmon = CWorldMonitor()
+        self.reset()
+
+    def reset(self):
+        self.rpc = {}
+        self.terminated = False       # a tunnel-level termination stimulus happened
+        self.chan_finished = False
+        self.serve_returned = False
+        self.pending = {}             # (side, sid, op) -> True
+        self.ended = False
+
+    def r(self, sid):
+        return self.rpc.setdefault(sid, {
+            "shape": None, "sub": [], "acc": [], "hgot": [], "hsub": [], "hacc": [], "cgot": [],
+            "hdr_set": "-", "hdr_sent": False, "tlr_set": "-", "ret": None, "returned": False,
+            "local_end": False, "terminal": None, "cancel_delivered": False, "h_eof": False,
+            "pending_send": None, "hpending_send": None, "srv_finished": False, "reqmd": None})
+
+    def feed(self, op, obs_line):
+        v = []
+        if op.startswith("svc "):
+            v += self.finish_scenario()
+            self.reset()
+            return v
+        if op.startswith("s."):
+            v += self.smon.feed(op, obs_line)
+        elif op.startswith("c."):
+            v += self.cmon.feed(op, obs_line)
+        o = parse_obs(obs_line)
+        if o is None:
+            return v
+        k = kvs(op)
+        kind = kind_of(op)
+        sid = int(k["sid"]) if "sid" in k else None
+        ev = o["E"]
+        side = op[0]
+        # ---- tunnel-level events ----
+        term_now = op.split()[0] in ("c.close", "c.fail", "c.eof", "s.fail", "s.eof")
+        first = term_now and not self.terminated
+        if term_now:
+            self.terminated = True
+        for e in ev:
+            if e.startswith("chan-finished"):
+                self.chan_finished = True
+                if not self.terminated:
+                    v.append(("C03", "tunnel-error-among-conforming-peers", f"the channel finished ({e}) although no tunnel-level stimulus occurred: `{op}`"))
+            if e.startswith("serve-returned"):
+                self.serve_returned = True
+                if not self.terminated:
+                    v.append(("C03", "tunnel-error-among-conforming-peers", f"serve returned ({e}) although no tunnel-level stimulus occurred: `{op}`"))
+        if term_now:
+            if op.startswith("c.") and first:
+                # C04: every in-flight call on the calling side returns a non-OK result
+                for dsid, dop, res in o["D"]:
+                    if res == "ok" or res.startswith("msg:"):
+                        v.append(("C04", "ok-result-at-termination", f"call {dsid}.{dop} completed with {res} when the tunnel ended"))
+            for rr in self.rpc.values():
+                rr["local_end"] = True
+        if side == "c":
+            for fsid, f in o["F"]:
+                if f == "cancel":
+                    self.r(fsid)["local_end"] = True    # the caller's side ended the RPC itself (cancel, deadline, shape error)
+        # ---- issue of calls (pending set) ----
+        if op.startswith("c.call") and kind in ("send", "recv", "header", "closesend"):
+            self.pending[("c", sid, "recv" if kind == "header" else kind, kind)] = op
+        if op.startswith("s.call") and kind in ("send", "recv"):
+            self.pending[("s", sid, kind, kind)] = op
+        for dsid, dop, res in o["D"]:
+            for key in list(self.pending):
+                if key[0] == side and key[1] == dsid and key[3] == dop:
+                    del self.pending[key]
+        # ---- per-RPC history ----
+        if op.startswith("c.new"):
+            for dsid, dop, res in o["D"]:
+                if dop == "new" and res == "ok":
+                    rr = self.r(dsid)
+                    rr["shape"] = k.get("shape")
+                    rr["reqmd"] = k.get("md", "-")
+                    if "cancelled" in k:
+                        rr["local_end"] = True
+        if op.startswith("c.call") and sid is not None:
+            rr = self.r(sid)
+            if kind == "send":
+                rr["sub"].append((int(k["idx"]), int(k["n"])))
+                rr["pending_send"] = (int(k["idx"]), int(k["n"]))
+            if kind == "cancel":
+                rr["local_end"] = True
+                # C07: blocked caller calls return in this very step
+                for key in list(self.pending):
+                    if key[0] == "c" and key[1] == sid:
+                        v.append(("C07", "cancel-did-not-release-caller", f"after `{op}` the caller's {key[3]} on stream {sid} is still blocked"))
+        if op.startswith("s.call") and sid is not None:
+            rr = self.r(sid)
+            if kind in ("send", "reply"):
+                rr["hsub"].append((int(k["idx"]), int(k["n"])))
+                rr["hpending_send"] = (int(k["idx"]), int(k["n"]))
+                if kind == "reply":
+                    rr["hacc"].append((int(k["idx"]), int(k["n"])))
+                    rr["ret"] = 0
+                    rr["returned"] = True
+                if not rr["hdr_sent"]:
+                    rr["hdr_sent"] = True
+            if kind in ("sethdr", "sendhdr"):
+                ok = any(d == (sid, kind, "ok") for d in o["D"])
+                if ok and not rr["hdr_sent"]:
+                    rr["hdr_set"] = md_join(rr["hdr_set"], k.get("md", "-"))
+                    if kind == "sendhdr":
+                        rr["hdr_sent"] = True
+            if kind == "settlr" and not rr["returned"] and not rr["srv_finished"]:
+                rr["tlr_set"] = md_join(rr["tlr_set"], k.get("md", "-"))
+            if kind == "ret":
+                rr["ret"] = int(k["code"])
+                rr["returned"] = True
+                # the close frame carries exactly the handler's status and trailers
+                for fsid, f in o["F"]:
+                    if fsid == sid and f.startswith("close:"):
+                        want = f"close:{rr['ret']}{{{rr['tlr_set']}}}"
+                        if f != want and not rr["srv_finished"]:
+                            v.append(("C02", "close-frame-differs-from-handler-result", f"stream {sid}: handler returned code {rr['ret']} trailers {rr['tlr_set']}, wire has {f}"))
+        if op.startswith("s.frame") and sid is not None and kind == "cancel":
+            rr = self.r(sid)
+            rr["cancel_delivered"] = True
+            # C07: the handler is released in this step
+            for key in list(self.pending):
+                if key[0] == "s" and key[1] == sid:
+                    v.append(("C07", "cancel-did-not-release-handler", f"after the cancel frame the handler's {key[3]} on stream {sid} is still blocked"))
+        for fsid, f in o["F"]:
+            if side == "s" and f.startswith("close:"):
+                self.r(fsid)["srv_finished"] = True
+            if side == "s" and f.startswith("hdr{"):
+                self.r(fsid)["hdr_sent"] = True
+        for e in ev:
+            if e.startswith("ctxdone"):
+                self.r(int(e.split()[1]))["srv_ctx_done"] = True
+        # ---- results ----
+        for dsid, dop, res in o["D"]:
+            rr = self.r(dsid)
+            if side == "c":
+                if dop == "send":
+                    if res == "ok" and rr["pending_send"]:
+                        rr["acc"].append(rr["pending_send"])
+                    rr["pending_send"] = None
+                if dop == "recv":
+                    if res.startswith("msg:"):
+                        _, idx, n = res.split(":")
+                        rr["cgot"].append((idx, int(n)))
+                        i = len(rr["cgot"]) - 1
+                        # C01: prefix of what the handler submitted, byte sizes included
+                        if i >= len(rr["hsub"]) or rr["hsub"][i][1] != int(n) or (idx not in ("-",) and str(rr["hsub"][i][0]) != idx):
+                            v.append(("C01", "response-not-prefix", f"stream {dsid}: caller's response #{i} is {res}, handler submitted {rr['hsub'][:i+1]}"))
+                    elif rr["terminal"] is None:
+                        rr["terminal"] = res
+                        if res == "eof" and not rr["local_end"]:
+                            # caller told OK: everything the handler successfully sent has arrived
+                            if [n for _, n in rr["cgot"]] != [n for _, n in rr["hacc"]]:
+                                v.append(("C01", "incomplete-on-ok", f"stream {dsid}: caller got OK after {rr['cgot']} but the handler sent {rr['hacc']}"))
+                            if rr["ret"] not in (0, None):
+                                v.append(("C02", "ok-for-failed-rpc", f"stream {dsid}: caller got OK, handler returned code {rr['ret']}"))
+                        if res.startswith("status:") and rr["returned"] and not rr["local_end"] and rr["ret"] is not None:
+                            code = int(res.split(":")[1])
+                            if code != rr["ret"] and not (code == 13 and rr["shape"] in ("U", "CS")):
+                                v.append(("C02", "wrong-status", f"stream {dsid}: handler returned {rr['ret']}, caller got {res}"))
+                if dop == "header" and res.startswith("md{") and rr["hdr_sent"] and not rr["local_end"]:
+                    if res != "md{" + rr["hdr_set"] + "}" and rr["terminal"] is None:
+                        v.append(("C02", "wrong-headers", f"stream {dsid}: caller's headers {res}, handler set {rr['hdr_set']}"))
+                if dop == "trailer" and rr["terminal"] in ("eof",) and not rr["local_end"] and rr["returned"]:
+                    if res != "md{" + rr["tlr_set"] + "}":
+                        v.append(("C02", "wrong-trailers", f"stream {dsid}: caller's trailers {res}, handler set {rr['tlr_set']}"))
+            else:
+                if dop == "send":
+                    if res == "ok" and rr["hpending_send"]:
+                        rr["hacc"].append(rr["hpending_send"])
+                    rr["hpending_send"] = None
+                if dop in ("recv", "decode"):
+                    if res.startswith("msg:"):
+                        _, idx, n = res.split(":")
+                        rr["hgot"].append((idx, int(n)))
+                        i = len(rr["hgot"]) - 1
+                        if i >= len(rr["sub"]) or rr["sub"][i][1] != int(n) or (idx != "-" and str(rr["sub"][i][0]) != idx):
+                            v.append(("C01", "request-not-prefix", f"stream {dsid}: handler's request #{i} is {res}, caller submitted {rr['sub'][:i+1]}"))
+                    elif res == "eof" and not rr["h_eof"]:
+                        rr["h_eof"] = True
+                        # handler sees end-of-stream: every request whose send succeeded has arrived
+                        if [n for _, n in rr["hgot"]] != [n for _, n in rr["acc"]] and rr["shape"] in ("CS", "BD"):
+                            v.append(("C01", "incomplete-on-eof", f"stream {dsid}: handler saw end-of-stream after {rr['hgot']} but the caller sent {rr['acc']}"))
+        return v
+
+    def finish_scenario(self):
+        """C04 at the end of a scenario in which the tunnel was terminated and drained."""
+        v = []
+        if self.terminated and self.chan_finished and self.serve_returned:
+            for key, op in self.pending.items():
+                v.append(("C04", "call-hangs-after-termination", f"{key[0]}-side {key[3]} on stream {key[1]} never returned after the tunnel ended (`{op}`)"))
+        return v
